@@ -41,7 +41,7 @@ ASSUMPTIONS = [
     "rows within a few ulp of a range boundary and numerical-fallback force rows whose stencil crosses a "
     "boundary are not compared (counted)",
 ]
-REQUIRED = {"special:root_on_grid": 8, "special:decay_tail": 8, "accept": 60, "reject": 40, "reject:nr%4=2:api_class": 5, "reject:nr%4=2:writePotentials": 5,
+REQUIRED = {"special:root_on_grid": 8, "special:decay_tail": 8, "special:growth": 4, "accept": 60, "reject": 40, "reject:nr%4=2:api_class": 5, "reject:nr%4=2:writePotentials": 5,
             "reject:nr%4=2:potable": 10, "route:potable:DL_POLY": 10, "route:potable:DLPOLY": 10,
             "route:api_class": 15, "route:writePotentials": 15}
 FMT = ("e", 7)
@@ -78,7 +78,7 @@ def strategy(tier):
 def strata(tier):
     mx = 80 if tier == "quick" else 2000
     out = [("accept", _case(mx, True), 12), ("root_on_grid", _special("root_on_grid"), 2),
-           ("decay_tail", _special("decay_tail"), 2)]
+           ("decay_tail", _special("decay_tail"), 2), ("growth", _special("growth"), 1)]
     for route in ("api_class", "writePotentials", "potable:DL_POLY", "potable:DLPOLY"):
         out.append(("reject:even:" + route, _case(mx, False, route, 2), 1))
         out.append(("reject:odd:" + route, _case(mx, False, route), 1))
@@ -133,7 +133,8 @@ def verify_text(case, out, route_kind, ctx):
             E = blk["energies"][i]
             if abs(j.v) >= 1e99 or abs(j.d(1).v * r) >= 1e99:
                 raise DomainError("value does not fit a 15-character field")
-            if not compare.close(FMT, E, j.c[0]) and not (E == 0.0 and abs(j.v) < 1.0000001e-99):
+            fmt_e = FMT if abs(E) < 1e100 else ("e", 6)     # three-digit exponents are printed with one decimal less
+            if not compare.close(fmt_e, E, j.c[0]) and not (E == 0.0 and abs(j.v) < 1.0000001e-99):
                 v.append(("energy", "%s-%s energy %d (r=%r): %r, model %r (tol %.3g)\n%s" % (
                     a, b, k, r, E, j.v, compare.tol(FMT, E, j.c[0]), ctx)))
                 break
@@ -143,7 +144,8 @@ def verify_text(case, out, route_kind, ctx):
                 continue
             want = -(d1 * EN(r, (8.0 + k) * r))
             G = blk["forces"][i]
-            if not compare.close(FMT, G, want) and not (G == 0.0 and abs(want.v) < 1.0000001e-99):
+            fmt_g = FMT if abs(G) < 1e100 else ("e", 6)
+            if not compare.close(fmt_g, G, want) and not (G == 0.0 and abs(want.v) < 1.0000001e-99):
                 v.append(("force", "%s-%s force value %d (r=%r): %r, -r dV/dr = %r (tol %.3g, numeric=%s)\n%s" % (
                     a, b, k, r, G, want.v, compare.tol(FMT, G, want), numeric, ctx)))
                 break
